@@ -64,8 +64,8 @@ PLAN["C04"] = {
     "assumptions": COMMON_ASSUMPTIONS,
     "claim": "Every dense automaton of the finite domains under every bijective renumbering; relation compared entry-wise with the definition.",
     "technique": "bounded exhaustive enumeration of automata x all state bijections x insertion orders against definitional greatest-fixpoint simulations",
-    "quick": [("rel", "c04.n2s3k5"), ("rel", "c04.n3s3pk4"), ("rel", "c04.n2afhk3"), ("rel", "c04.n3ahk3")],
-    "thorough": [("rel", "c04.n2s3k6"), ("rel", "c04.n3s3pk5"), ("rel", "c04.n2afhk4"), ("rel", "c04.n3ahk3")],
+    "quick": [("rel", "c04.n2s3k5"), ("rel", "c04.n3s3pk4"), ("rel", "c04.n2afhk3"), ("rel", "c04.n3ahk3"), ("rel", "c04.n4abfk3"), ("rel", "c04.n3abfk6")],
+    "thorough": [("rel", "c04.n2s3k6"), ("rel", "c04.n3s3pk5"), ("rel", "c04.n2afhk4"), ("rel", "c04.n3ahk3"), ("rel", "c04.n4abfk5"), ("rel", "c04.n3abfk6")],
     "require": {"all": ["trimmed", "not_trimmed", "up_nonidentity", "down_nonidentity"]},
 }
 
